@@ -14,6 +14,7 @@ import (
 	"time"
 
 	abci "github.com/cometbft/cometbft/abci/types"
+	tmproto "github.com/cometbft/cometbft/proto/tendermint/types"
 	sdk "github.com/cosmos/cosmos-sdk/types"
 	"github.com/cosmos/cosmos-sdk/types/module"
 	"github.com/cosmos/cosmos-sdk/types/query"
@@ -991,6 +992,22 @@ func customSections(appState json.RawMessage) (map[string]string, error) {
 
 func (e *Exec) exportFrom(n *Node, tag string) (appState []byte, vals []abci.ValidatorUpdate, ok bool) {
 	var err error
+	// the module manager exports every module in its own goroutine, where a panic cannot be recovered:
+	// export the custom modules on this goroutine first so that a panic of theirs is observed
+	for _, mod := range customGenesisModules {
+		m, ok := n.App.ModuleManager.Modules[mod].(module.HasGenesis)
+		if !ok {
+			continue
+		}
+		_, halt := n.guard("ExportGenesis/"+mod, func() {
+			ctx := n.App.NewContext(true, tmproto.Header{Height: n.App.LastBlockHeight()})
+			_ = m.ExportGenesis(ctx, n.App.AppCodec())
+		})
+		if halt != nil {
+			e.viol("C08", "export.panic."+mod, "", "%s: exporting the %s genesis panicked: %s [%s]", tag, mod, halt.Panic, halt.Stack)
+			return nil, nil, false
+		}
+	}
 	_, halt := n.guard("Export", func() {
 		exp, er := n.App.ExportAppStateAndValidators(false, nil, nil)
 		err = er
@@ -1223,7 +1240,7 @@ func (e *Exec) finalChecks() {
 		if r.Dead || !r.Up || e.stop {
 			continue
 		}
-		if r.Boot {
+		if r.Boot && r.Applied >= r.FirstHeight {
 			e.querySweep(r, e.Model, 0, true, e.head())
 			if e.stop {
 				return
@@ -1257,8 +1274,8 @@ func (e *Exec) upgradeChecks() {
 		}
 		e.Stats.Inc("probe.upgrade.executed")
 		for _, r := range e.R {
-			if r.Dead || !r.Up {
-				continue
+			if r.Dead || !r.Up || (r.Boot && r.FirstHeight >= b.Plan.Height) {
+				continue // a chain bootstrapped from a later export does not carry the upgrade bookkeeping
 			}
 			ctx := r.App.NewContext(true, e.Env.Header(e.Blocks[e.head()-1].B))
 			if dh := r.App.UpgradeKeeper.GetDoneHeight(ctx, b.Plan.Name); dh != b.Plan.Height {
